@@ -19,16 +19,50 @@ package snapshot
 //@   ensures in_range: err == nil ==> 0 <= skip && skip <= len(data)
 //@   ensures progress: err == nil ==> skip >= 1
 //@   ensures err_zero: err != nil ==> skip == 0
+//@   ensures payload_of_wire_type: err == nil ==> skip == fieldPayloadLen(data, uint64(wireType))
 
+// KV.Unmarshal against the schema, one field per iteration: with the state at
+// the head of the iteration remembered in ghost variables, a completed
+// iteration has consumed exactly one field (tag varint, then the payload its
+// wire type prescribes) starting where the previous one ended, stored it in
+// the Go field the schema's number names (key = 1, value = 2, timestamp_nano =
+// 3 as fixed64, flags = 4 as varint), left the other three fields alone, and
+// skipped a field with any other number whatever its number is.
 //@ func (kv *KV) Unmarshal
 //@   nopanic
-//@   modifies *kv
+//@   modifies *kv, ghost_fs, ghost_kArr, ghost_kOff, ghost_kLen, ghost_vArr, ghost_vOff, ghost_vLen, ghost_ts0, ghost_fl0
 //@   loop 0 invariant range: 0 <= offset && offset <= dataSize && dataSize == len(data)
 //@   loop 0 decreases dataSize - offset
 //@   loop 0 invariant key_in_data: sameSlice(kv.Key, old(kv.Key)) || sameArray(kv.Key, data)
 //@   loop 0 invariant val_in_data: sameSlice(kv.Value, old(kv.Value)) || sameArray(kv.Value, data)
 //@   ensures key_in_data: sameSlice(kv.Key, old(kv.Key)) || sameArray(kv.Key, data)
 //@   ensures val_in_data: sameSlice(kv.Value, old(kv.Value)) || sameArray(kv.Value, data)
+//@   loop 0 ghost fs := offset
+//@   loop 0 ghost kArr := arrayOf(kv.Key)
+//@   loop 0 ghost kOff := offsetOf(kv.Key)
+//@   loop 0 ghost kLen := len(kv.Key)
+//@   loop 0 ghost vArr := arrayOf(kv.Value)
+//@   loop 0 ghost vOff := offsetOf(kv.Value)
+//@   loop 0 ghost vLen := len(kv.Value)
+//@   loop 0 ghost ts0 := kv.TimestampNano
+//@   loop 0 ghost fl0 := uint64(kv.Flags)
+//@   let fstart = int(ghost_fs)
+//@   let tagv = varintVal(data[fstart:])
+//@   let fnum = tagv >> 3
+//@   let wt = tagv & 7
+//@   let p = fstart + varintLen(data[fstart:])
+//@   let plen = varintLen(data[p:])
+//@   let pval = varintVal(data[p:])
+//@   let keySame = arrayOf(kv.Key) == ghost_kArr && offsetOf(kv.Key) == ghost_kOff && uint64(len(kv.Key)) == ghost_kLen
+//@   let valSame = arrayOf(kv.Value) == ghost_vArr && offsetOf(kv.Value) == ghost_vOff && uint64(len(kv.Value)) == ghost_vLen
+//@   let tsSame = kv.TimestampNano == ghost_ts0
+//@   let flSame = uint64(kv.Flags) == ghost_fl0
+//@   loop 0 step tag_is_a_varint: varintOK(data[fstart:])
+//@   loop 0 step key_is_field_1: fnum == 1 ==> wt == 2 && varintOK(data[p:]) && sameSlice(kv.Key, data[p+plen:p+plen+int(pval)]) && offset == p+plen+int(pval) && valSame && tsSame && flSame
+//@   loop 0 step value_is_field_2: fnum == 2 ==> wt == 2 && varintOK(data[p:]) && sameSlice(kv.Value, data[p+plen:p+plen+int(pval)]) && offset == p+plen+int(pval) && keySame && tsSame && flSame
+//@   loop 0 step timestamp_is_field_3_fixed64: fnum == 3 ==> wt == 1 && kv.TimestampNano == le64(data, p) && offset == p+8 && keySame && valSame && flSame
+//@   loop 0 step flags_is_field_4_varint: fnum == 4 ==> wt == 0 && varintOK(data[p:]) && kv.Flags == uint32(pval) && offset == p+plen && keySame && valSame && tsSame
+//@   loop 0 step other_fields_skipped: fnum != 1 && fnum != 2 && fnum != 3 && fnum != 4 ==> offset == p + fieldPayloadLen(data[p:], wt) && keySame && valSame && tsSame && flSame
 
 //@ func (d *DBI) Next
 //@   requires cur_in_range: 0 <= d.cur && d.cur <= len(d.data)
